@@ -369,6 +369,58 @@ def run(model: RepoModel, rep, tier: str):
         elif pushes:
             rep.violation("C13.R3", key, PS, pushes[0].lineno, "analyze_method pushes callee frames without testing analyzed_method_list: recursion never bottoms out")
 
+    # P2: a frame that leaves the stack is recorded as analysed on that path (the only thing that stops its caller from asking again)
+    if am is not None:
+        acfg = cfg_of(am.node)
+        pops = [n for n in acfg.g.nodes for c in acfg.calls_at(n) if isinstance(c.func, ast.Attribute) and c.func.attr == "pop" and "frame_stack" in norm(c.func.value)]
+        recs = {n for n in acfg.g.nodes for c in acfg.calls_at(n) if isinstance(c.func, ast.Attribute) and c.func.attr == "add"
+                and "analyzed_method_list" in norm(c.func.value)}
+        heads = [n for n in acfg.g.nodes if acfg.kind[n] == "test" and isinstance(acfg.stmt[n], ast.While)]
+        if pops and heads:
+            h = heads[0]
+            bt = acfg.branch_of[(h, "T")]
+            within = acfg.loop_body_nodes[h] | {h}
+            for pn in pops:
+                key = f"{PS}::analyze_method::frame popped at line {_rel_line(acfg, pn, am)} is recorded as analysed"
+                before = acfg.path_avoiding(bt, pn, recs, within=within) is None
+                after = acfg.path_avoiding(pn, h, recs, within=within) is None
+                if before or after or pn in recs:
+                    rep.holds("C13.R3", key, PS, acfg.stmt[pn].lineno, "analyzed_method_list.add(frame.method_id) on every path through this pop")
+                else:
+                    rep.violation("C13.R3", key, PS, acfg.stmt[pn].lineno,
+                                  "analyze_method pops a frame without adding its method to analyzed_method_list: the caller's call statement "
+                                  "requests the same callee again on its next visit and the bottom-up phase never ends (a callee whose frame "
+                                  "cannot be initialised, e.g. an empty stub, is enough)")
+    # P3: the per-entry call-site budget is one object shared by reference by every frame of the entry point
+    cs = model.module("common_structs.py")
+    cfc = cs.classes.get("ComputeFrame")
+    if cfc is not None and "__init__" in cfc.methods:
+        ini = cfc.methods["__init__"]
+        key = "common_structs.py::ComputeFrame.__init__::call_site_analyze_counter is kept by reference"
+        asg = [n for n in walk_no_nested(ini.node) if isinstance(n, ast.Assign) and any(is_self_attr(t, "call_site_analyze_counter") for t in n.targets)]
+        rebinding = [n for n in walk_no_nested(ini.node) if isinstance(n, ast.Assign) and any(isinstance(t, ast.Name) and t.id == "call_site_analyze_counter" for t in n.targets)]
+        none_only = all(any(isinstance(t, ast.If) and "call_site_analyze_counter is None" in norm(t.test) and any(x is r for x in ast.walk(t))
+                            for t in walk_no_nested(ini.node)) for r in rebinding)
+        if asg and all(isinstance(a.value, ast.Name) and a.value.id == "call_site_analyze_counter" for a in asg) and none_only:
+            rep.holds("C13.R3", key, "common_structs.py", asg[0].lineno, "self.call_site_analyze_counter = call_site_analyze_counter (the caller's dict itself)")
+        elif asg:
+            rep.violation("C13.R3", key, "common_structs.py", asg[0].lineno,
+                          f"ComputeFrame stores `{norm(asg[0].value)}` instead of the dict it was given: an empty shared dict is falsy/copied, so "
+                          f"every frame counts call-site visits in a private dict and MAX_ANALYSIS_ROUND_FOR_CALL_SITE bounds nothing across "
+                          f"frames -- a chain f_i -> f_(i-1) called from two sites each is analysed 2^n times")
+        gsm = model.module(GS)
+        for f in gsm.all_funcs():
+            for n in walk_no_nested(f.node):
+                if isinstance(n, ast.Call) and (call_name(n) or "").endswith("ComputeFrame") and not (call_name(n) or "").endswith("MetaComputeFrame"):
+                    kw = next((k.value for k in n.keywords if k.arg == "call_site_analyze_counter"), None)
+                    key = f"{GS}::{f.qualname}::ComputeFrame(... call_site_analyze_counter=self.call_site_analyze_counter) line {_fn_rel(n, f)}"
+                    if kw is not None and is_self_attr(kw, "call_site_analyze_counter"):
+                        rep.holds("C13.R3", key, GS, n.lineno, "the frame shares the analysis-wide budget")
+                    else:
+                        rep.violation("C13.R3", key, GS, n.lineno,
+                                      f"{f.qualname} creates a frame without the shared call-site budget: visits made in that frame are not "
+                                      f"counted against MAX_ANALYSIS_ROUND_FOR_CALL_SITE")
+
     # ------------------------------------------------------------------ R4
     tm = model.module("taint/taint_analysis.py")
     for cls_name, fname in (("TaintAnalysis", "get_state_with_inclusion_tag"), ("TaintAnalysis", "get_all_forward_nodes"),
@@ -424,6 +476,15 @@ def run(model: RepoModel, rep, tier: str):
     rep.analysed["size caps (constant -> comparisons that consult it)"] = consulted
 
 
+def _rel_line(cfg, n, f) -> int:
+    """line offset inside the function (stable under edits elsewhere in the file)."""
+    return cfg.stmt[n].lineno - f.node.lineno
+
+
+def _fn_rel(node, f) -> int:
+    return node.lineno - f.node.lineno
+
+
 # ---------------------------------------------------------------- self-test mutants
 def _t(old, new):
     return lambda src: __import__("sa.mutate", fromlist=["x"]).text_replace(src, old, new)
@@ -441,6 +502,11 @@ def _m(kind, rel_cls, func, pred, new=None, nth=0):
 
 
 MUTANTS = [
+    ("counter-or-empty", "common_structs.py", _t("        self.call_site_analyze_counter = call_site_analyze_counter\n", "        self.call_site_analyze_counter = call_site_analyze_counter or {}\n"),
+     "kept by reference"),
+    ("failed-init-not-recorded", PS, _t("                if self.init_compute_frame(frame, frame_stack) is None:\n                    self.analyzed_method_list.add(frame.method_id)\n",
+                                        "                if self.init_compute_frame(frame, frame_stack) is None:\n"), "is recorded as analysed"),
+    ("callee-frame-without-budget", GS, _t("                            call_site_analyze_counter=self.call_site_analyze_counter,\n", ""), "ComputeFrame("),
     ("analyze-stmts-no-counter-inc", PS, _m("del", "P2PrelimSemanticAnalysis", "analyze_stmts",
                                             lambda st: isinstance(st, ast.AugAssign) and "stmt_counters" in norm(st.target)), "analyze_stmts"),
     ("analyze-stmts-early-continue-no-pop", PS, _t("            if stmt_id <= 0 or stmt_id not in frame.stmt_counters:\n                frame.stmt_worklist.pop()\n                continue",
